@@ -332,26 +332,23 @@ ssize_t sim_write(int fd, OpenFile& of, const char* data, size_t len)
 // ------------------------------------------------------------ interposers
 extern "C"
 {
-FILE* fopen64(const char* path, const char* mode)
+// Core of every simulated open: returns a memfd registered in g.open, or -1 with errno set.
+static int sim_open_fd(const std::string& abs, bool wr, bool trunc, bool append)
 {
-    init_real();
-    std::string abs = norm(path);
-    if(!g.active || !in_sim(abs)) return real.fopen64(path, mode);
-    const bool wr = std::strchr(mode, 'w') || std::strchr(mode, 'a') || std::strchr(mode, '+');
     FaultSpec* f = on_call(wr ? K_OPENW : K_OPENR, abs);
     if(under_condition(abs))
     {
         note_hard(std::string("open(") + abs + ") environment condition errno " + std::to_string(g.cond_errno), wr);
         sim::stats().count("fault.fired.condition.open");
         errno = g.cond_errno;
-        return nullptr;
+        return -1;
     }
     if(yanked())
     {
         note_hard(std::string("open(") + abs + ") after yank", wr);
         sim::stats().count("fault.fired.yank.open");
         errno = EIO;
-        return nullptr;
+        return -1;
     }
     if(f)
     {
@@ -359,13 +356,13 @@ FILE* fopen64(const char* path, const char* mode)
         sim::stats().count(std::string("fault.fired.") + kKindName[f->kind] + "." + f->outcome);
         note_hard(std::string("open(") + abs + ") " + f->outcome, wr);
         errno = errno_of(f->outcome);
-        return nullptr;
+        return -1;
     }
     if(int e = check_parent(abs))
     {
         note_hard("open(" + abs + ") natural errno " + std::to_string(e), wr);
         errno = e;
-        return nullptr;
+        return -1;
     }
     auto it = g.fs.find(abs);
     if(wr)
@@ -374,39 +371,51 @@ FILE* fopen64(const char* path, const char* mode)
         {
             note_hard("open(" + abs + ") natural EISDIR", true);
             errno = EISDIR;
-            return nullptr;
+            return -1;
         }
         Node& n = g.fs[abs];
         if(it == g.fs.end()) n.created_by_run = true;
-        if(std::strchr(mode, 'w')) n.data.clear();
+        if(trunc) n.data.clear();
     }
     else if(it == g.fs.end())
     {
         // a missing *input* is a failed read; probing for an existing output is ordinary behaviour
         if(abs.rfind("/sim/in/", 0) == 0 || abs == "/sim/in") note_hard("open(" + abs + ") natural ENOENT", false);
         errno = ENOENT;
-        return nullptr;
+        return -1;
     }
     int fd = memfd_create("simfile", 0);
-    if(fd < 0) return nullptr;
+    if(fd < 0) return -1;
     OpenFile of;
     of.path = abs;
     of.writing = wr;
     Node& n = g.fs[abs];
     of.is_dir = n.dir;
     of.dirseek_max = g.dirseek_max;
-    if(!n.dir && !n.data.empty() && !(wr && std::strchr(mode, 'w')))
+    if(!n.dir && !n.data.empty() && !(wr && trunc))
     {
         raw_write(fd, n.data.data(), n.data.size());
-        if(!std::strchr(mode, 'a')) lseek(fd, 0, SEEK_SET);
+        if(!append) lseek(fd, 0, SEEK_SET);
     }
+    g.open[fd] = of;
+    return fd;
+}
+
+FILE* fopen64(const char* path, const char* mode)
+{
+    init_real();
+    std::string abs = norm(path);
+    if(!g.active || !in_sim(abs)) return real.fopen64(path, mode);
+    const bool wr = std::strchr(mode, 'w') || std::strchr(mode, 'a') || std::strchr(mode, '+');
+    int fd = sim_open_fd(abs, wr, std::strchr(mode, 'w') != nullptr, std::strchr(mode, 'a') != nullptr);
+    if(fd < 0) return nullptr;
     FILE* fp = fdopen(fd, mode);
     if(!fp)
     {
-        close(fd);
+        g.open.erase(fd);
+        syscall(SYS_close, fd);
         return nullptr;
     }
-    g.open[fd] = of;
     return fp;
 }
 
@@ -638,8 +647,44 @@ int open(const char* path, int flags, ...)
         mode = va_arg(ap, mode_t);
         va_end(ap);
     }
-    if(g.active && in_sim(norm(path))) g.bypass++;
+    std::string abs = norm(path);
+    if(g.active && in_sim(abs))
+    {
+        // code that uses the POSIX API directly (instead of fstream) is simulated all the same
+        const bool wr = (flags & O_ACCMODE) != O_RDONLY;
+        auto it = g.fs.find(abs);
+        if(!wr && (flags & O_DIRECTORY) == 0 && it != g.fs.end() && it->second.dir)
+        {
+            // opening a directory read-only succeeds, reads fail later
+        }
+        if(wr && it == g.fs.end() && !(flags & O_CREAT))
+        {
+            on_call(K_OPENW, abs);
+            errno = ENOENT;
+            return -1;
+        }
+        if((flags & O_CREAT) && (flags & O_EXCL) && it != g.fs.end())
+        {
+            on_call(K_OPENW, abs);
+            errno = EEXIST;
+            return -1;
+        }
+        return sim_open_fd(abs, wr, (flags & O_TRUNC) != 0, (flags & O_APPEND) != 0);
+    }
     return real.open(path, flags, mode);
+}
+
+int open64(const char* path, int flags, ...)
+{
+    mode_t mode = 0;
+    if(flags & O_CREAT)
+    {
+        va_list ap;
+        va_start(ap, flags);
+        mode = va_arg(ap, mode_t);
+        va_end(ap);
+    }
+    return open(path, flags, mode);
 }
 
 int openat(int dirfd, const char* path, int flags, ...)
@@ -653,8 +698,33 @@ int openat(int dirfd, const char* path, int flags, ...)
         mode = va_arg(ap, mode_t);
         va_end(ap);
     }
-    if(g.active && path && path[0] == '/' && in_sim(norm(path))) g.bypass++;
+    if(g.active && path && (path[0] == '/' || dirfd == AT_FDCWD) && in_sim(norm(path))) return open(path, flags, mode);
     return real.openat(dirfd, path, flags, mode);
+}
+
+int close(int fd)
+{
+    auto it = g.open.find(fd);
+    if(it == g.open.end()) return (int)syscall(SYS_close, fd);
+    OpenFile of = it->second;
+    g.open.erase(it);
+    int rc = (int)syscall(SYS_close, fd);
+    if(!g.active) return rc;
+    FaultSpec* f = on_call(of.writing ? K_CLOSEW : K_CLOSER, of.path);
+    if(of.writing && f)
+    {
+        f->fired = true;
+        sim::stats().count("fault.fired.close_w." + f->outcome.substr(0, f->outcome.find(':')));
+        note_hard("close(" + of.path + ") " + f->outcome, true);
+        if(f->outcome.rfind("DROP:", 0) == 0)
+        {
+            auto& d = g.fs[of.path].data;
+            d.resize(d.size() / 2);
+        }
+        errno = errno_of(f->outcome.substr(f->outcome.find(':') + 1));
+        return -1;
+    }
+    return rc;
 }
 } // extern "C"
 
@@ -832,7 +902,7 @@ RunOutcome run_sbeppc(const std::vector<std::string>& args, const std::vector<Fa
     set_budget_ms(0);
     g.active = false;
     // files sbeppc left open (it jumped out through exit): drop them
-    for(auto& kv : g.open) close(kv.first);
+    for(auto& kv : g.open) syscall(SYS_close, kv.first);
     g.open.clear();
     fflush(stdout);
     fflush(stderr);
